@@ -88,8 +88,8 @@ def check(ctx):
                   detail_bad=f"{s!r} is read as a valid-looking Twp/Rge/Sec",
                   key=f"RX-LANG-NEG|unpacker|{s}")
 
-    _placeholders(ctx)
-    _hand_down(ctx)
+    ctx.attempt(_placeholders)
+    ctx.attempt(_hand_down)
 
 
 def _placeholders(ctx):
